@@ -1039,6 +1039,18 @@ func (p *Prog) typeOfAST(e ast.Expr, pkg *types.Package) types.Type {
 			if tn, ok := pkg.Scope().Lookup(n.Name).(*types.TypeName); ok {
 				return tn.Type()
 			}
+			// a name that a file of the package sees through a dot import
+			var found types.Type
+			cnt := 0
+			for _, imp := range pkg.Imports() {
+				if tn, ok := imp.Scope().Lookup(n.Name).(*types.TypeName); ok && tn.Exported() {
+					found = tn.Type()
+					cnt++
+				}
+			}
+			if cnt == 1 {
+				return found
+			}
 		}
 	case *ast.SelectorExpr:
 		if id, ok := n.X.(*ast.Ident); ok {
